@@ -237,12 +237,14 @@ CLAIMED = {
         text="Lean 4 theorems: for every exact inverse pair (T, A) the reconstruction error is at most the row-sum norm of T times "
              "the consistency error of the data (stability reduction), and daun degree 0 / onion peeling invert the true Abel "
              "projection of every piecewise-constant source exactly at every size (through C09's operator = Abel integral theorems); an "
-             "a-priori envelope ‖T_i‖₁·L·(n−½) for inverting the true projection of any L-Lipschitz source with the degree-0 basis. "
+             "a-priori envelope ‖T_i‖₁·L·(n−½) for inverting the true projection of any L-Lipschitz source with the degree-0 basis; rBasex's "
+             "triangular solve recovers exactly the coefficients of any radially piecewise-linear distribution of any angular order from "
+             "its true projection, at every Rmax (with C09Rbasex / C03Bases). "
              "Tie: Lean operator models vs the implementation's arrays. Oracle independent of PyAbel: closed-form Abel pairs and "
              "Gauss–Legendre line-of-sight projections for every method x documented option x family x size x dr x rows; errors must "
              "stay within 2x the frozen pinned-tree envelope, below half the peak, and not grow under refinement.",
         note="Partial: the numerical envelope of each method is measured, not proved (floating point + discretisation); methods "
-             "without a Lean operator model (hansenlaw, direct, onion_bordas, basex, linbasex, rbasex) are covered by the oracle only. "
+             "without an accuracy theorem (hansenlaw, direct, onion_bordas — modelled in C04 — basex, linbasex, rbasex at image level) are covered by the oracle only. "
              "Trusted: Lean kernel + standard axioms; the frozen baseline; numpy Gauss–Legendre nodes.",
         technique="Lean 4 proof (finite-sum bounds; Abel integral of shells) + operator correspondence + closed-form/quadrature oracle",
         design="§3 C01"),
